@@ -47,6 +47,12 @@ SCENARIOS = {
                        behaviour={1: ('normal', 4), 3: ('normal', 2), 5: ('normal', 4)}),
     'eol3_pairs': dict(eol=';;\n', callers=[[('comm', 1), ('comm', 2)], [M((3, 0), (4, 0.3))]],
                        behaviour={1: ('normal', 5), 2: ('normal', 2), 4: ('normal', 5)}),
+    # unsolicited data in the same segment as a reply: it sits in the receive buffer (not on the socket) when the next
+    # command is sent, and is stale all the same
+    'junk_coalesced': dict(callers=[[('comm', 1), ('sleep', 1), ('comm', 2), ('comm', 3)], [('sleep', 0.5), ('comm', 4)]],
+                           behaviour={1: ('garbage_with',), 3: ('garbage_with',)}),
+    'bytes_junk_coalesced': dict(bytes=True, callers=[[('comm', 1), ('sleep', 1), ('comm', 2)], [('sleep', 2.5), M((3, 0), (4, 0))]],
+                                 behaviour={1: ('garbage_with',)}),
     'bytes_pairs': dict(bytes=True, callers=[[M((1, 0), (2, 0))], [('comm', 3), ('comm', 4)]], behaviour={2: ('normal', 2)}),
     'bytes_delays': dict(bytes=True, callers=[[M((1, 1.0), (2, 2.0), (3, 0.5))], [('comm', 4)]]),
     'string_delays': dict(callers=[[M((1, 1.0), (2, 2.0), (3, 0.5))], [('comm', 4)]]),
@@ -145,7 +151,7 @@ def alpha(r, sc):
             beh = sc.get('behaviour', {})
             tr.append({'ev': 'call', 'i': e['i'], 'kind': e['kind'], 'gids': e['gids'], 'delays': e['delays'], 't': t,
                        'exp': e['exp'],
-                       'faulty': any(beh.get(g, ('normal',))[0] not in ('normal', 'garbage_after', 'noreply') for g in e['gids'])
+                       'faulty': any(beh.get(g, ('normal',))[0] not in ('normal', 'garbage_after', 'garbage_with', 'noreply') for g in e['gids'])
                        or 'drop_at' in sc or 'close_at' in sc
                        or any(b[0] == 'trickle' for b in beh.values())   # (a trickling device is busy)
                        or any(x[0] == 'disc' for c in sc.get('callers', ()) for x in c)})
